@@ -13,9 +13,13 @@ pub fn check(a: &Analysis, _aux: &mut Aux, t: &mut Tally) -> Vec<Violation> {
     // bytes received before the protocol was identified): the change-port exception is judged
     // on the stream up to and including the segment, not on the segment alone.
     let mut stream_cp: std::collections::BTreeMap<usize, (usize, usize)> = std::collections::BTreeMap::new();
+    let mut stream_malformed_cr: std::collections::BTreeSet<usize> = std::collections::BTreeSet::new();
     for st in a.tcp_streams() {
         for sg in &st.segs {
             let prefix = &st.stream[..sg.off + sg.len];
+            if malformed_with_change_request(prefix) {
+                stream_malformed_cr.insert(a.steps[sg.si].idx);
+            }
             if let Some(m) = stun::parse(prefix) {
                 if m.is_binding_request() && m.tiles {
                     stream_cp.insert(a.steps[sg.si].idx, (m.change_port_count(), m.odd_change_requests()));
@@ -160,20 +164,31 @@ pub fn check(a: &Analysis, _aux: &mut Aux, t: &mut Tally) -> Vec<Violation> {
                 // the flow's earlier bytes are not known to the model (cookie never observed in this
                 // history): whether a STUN change-port request was completed here cannot be told
                 t.any("stream-of-flow-unknown");
-            } else if rs != qd && is_stun_reply && rs == qd.wrapping_add(1) && {
+            } else if rs != qd && is_stun_reply && s.tcp.is_none() && s.req.tcp().is_some() && !s.carrier.clean() {
+                // a data segment over an odd carrier (the model does not follow such flows): the
+                // bytes the responder had received before on this connection are not known
+                t.any("stun-over-tcp-on-an-odd-carrier");
+            } else if rs != qd && is_stun_reply && rs == qd.wrapping_add(1) && (malformed_with_change_request(app) || stream_malformed_cr.contains(&s.idx)) {
                 // a binding request whose attributes do not tile the message (announced and present
                 // value bytes disagree, stray bytes) or whose CHANGE-REQUEST has another size than 4,
                 // and in which some walk of the attribute area can read a CHANGE-REQUEST header:
                 // malformed, the statement does not say whether the exception applies
-                let wellformed = stun::parse(app).map(|m| m.is_binding_request() && m.tiles && m.odd_change_requests() == 0).unwrap_or(false);
-                !wellformed && app.len() > 24 && app[0] == 0 && app[1] == 1 && app[20..].windows(2).any(|w| w == [0, 3])
-            } {
                 t.any("malformed-stun-request-with-change-request-bytes");
             } else if rs != qd {
+                if std::env::var("VERIF_DEBUG").is_ok() {
+                    eprintln!("c03 debug: idx={} tcp={:?} stun_cp={:?} is_stun_reply={} carrier_clean={}", s.idx, s.tcp.as_ref().map(|t| (t.class.clone(), t.data.clone(), t.cookie)), stun_cp, is_stun_reply, s.carrier.clean());
+                }
                 bad("src-port", format!("reply source port {} is not the request's destination port {}", rs, qd));
             }
         }
         t.judged(Verdict::Reply, sig);
     }
     v
+}
+
+/// A STUN binding request that is not well-formed (TLVs do not tile, or a CHANGE-REQUEST of
+/// another size than 4) and in whose attribute area a CHANGE-REQUEST header can be read.
+fn malformed_with_change_request(app: &[u8]) -> bool {
+    let wellformed = stun::parse(app).map(|m| m.is_binding_request() && m.tiles && m.odd_change_requests() == 0).unwrap_or(false);
+    !wellformed && app.len() > 24 && app[0] == 0 && app[1] == 1 && app[20..].windows(2).any(|w| w == [0, 3])
 }
